@@ -220,6 +220,19 @@ CHECKS = {
             "Trusted: numpy dense linear algebra. Excluded as outside the documented domain: BlockOperator with None "
             "placeholders, fastdiag_solver with sparse inputs, complex dtypes.",
             "DESIGN.md section 2, C16"),
+    "C17": ("exploration",
+            "Hypothesis-generated spaces / node grids / data / geometries / refinement histories + exhaustive enumeration of "
+            "degenerate spaces; oracle = dense reference collocation and Gauss-quadrature inner products",
+            "approx.interpolate and bspline.interpolate (default and custom unisolvent nodes; scalar/vector/matrix data as "
+            "callables, spline objects and value arrays; with geometry) must reproduce the coefficients of functions of "
+            "the space (condition-aware tolerance) and match the data at the nodes; project_L2 (tensor-product, with "
+            "affine/bilinear/spline/NURBS geometries, physical vs pulled-back data, hierarchical HB/THB spaces) must "
+            "reproduce functions of the space and leave a residual orthogonal to every basis function in the "
+            "|det J|-weighted inner product computed by the harness's own Gauss rule. Sampling plus an exhaustive "
+            "family of degenerate spaces; not a proof.",
+            "Trusted: vp/ref/bspl.py, vp/ref/geo.py, vp/ref/hier.py. One open known finding (hierarchical load vectors "
+            "integrate fine-level data with coarse-level rules).",
+            "DESIGN.md section 2, C17"),
     "C18": ("exploration",
             "model-based generated operation sequences (Hypothesis; pool of tensors with numpy reference arrays, checked "
             "after every step) + generated operators/tensors for HOSVD/ACA/ALS; oracle = dense numpy arrays",
